@@ -18,6 +18,9 @@
 #include <fstream>
 #include <iostream>
 #include <string>
+#include <map>
+#include <random>
+#include <thread>
 #include <vector>
 
 #include <nlohmann/json.hpp>
@@ -34,7 +37,9 @@ struct Shared
 };
 
 static Shared* shared = nullptr;
-static FILE* out = nullptr;
+static thread_local FILE* out = nullptr;
+// threaded mode: injected yields so that the interleaving differs from run to run (seeded)
+static thread_local std::mt19937* yieldRng = nullptr;
 
 void emitLine(const std::string& s)
 {
@@ -45,6 +50,15 @@ void emitLine(const std::string& s)
 
 void noteOp(long k)
 {
+    if (yieldRng)
+    {
+        const unsigned r = (*yieldRng)() % 8;
+        if (r < 3)
+            std::this_thread::yield();
+        else if (r == 3)
+            std::this_thread::sleep_for(std::chrono::microseconds((*yieldRng)() % 50));
+        return;
+    }
     if (shared)
         shared->opIndex = k;
 }
@@ -83,8 +97,92 @@ static void runEpisodes(const std::vector<std::string>& lines, long from)
         shared->done = 1;
 }
 
+static void runThreadWorkload(const std::vector<std::string>& lines, const std::string& path, unsigned seed, bool yields)
+{
+    out = fopen(path.c_str(), "w");
+    if (!out)
+        _exit(4);
+    std::mt19937 rng(seed);
+    yieldRng = yields ? &rng : nullptr;
+    for (const auto& line : lines)
+    {
+        json c = json::parse(line);
+        Out o;
+        o.obj().kv("e", "begin").kv("id", c.value("id", "")).kv("comp", c.value("comp", "")).end();
+        emitLine(o.str());
+        runEpisode(c);
+    }
+    Out o;
+    o.obj().kv("e", "end-thread").end();
+    emitLine(o.str());
+    fclose(out);
+    out = nullptr;
+    yieldRng = nullptr;
+}
+
+// exec --threads <cases> <prefix>: every episode names its thread; each thread's workload is run once alone
+// (<prefix>.alone.<k>) and once concurrently with all the others (<prefix>.conc.<k>), one log per thread.
+static int threadedMain(const char* casesPath, const std::string& prefix)
+{
+    std::map<int, std::vector<std::string>> work;
+    {
+        std::ifstream in(casesPath);
+        std::string line;
+        while (std::getline(in, line))
+            if (!line.empty())
+                work[json::parse(line).value("thread", 0)].push_back(line);
+    }
+    const unsigned seed = getenv("VERIF_SEED") ? static_cast<unsigned>(atoi(getenv("VERIF_SEED"))) : 1;
+    for (int phase = 0; phase < 2; ++phase)
+    {
+        pid_t pid = fork();
+        if (pid == 0)
+        {
+            std::set_terminate(terminateHandler);
+            alarm(watchdogSeconds() * 5);
+            if (phase == 0)
+            {
+                for (const auto& w : work)
+                    runThreadWorkload(w.second, prefix + ".alone." + std::to_string(w.first), seed, false);
+            }
+            else
+            {
+                std::vector<std::thread> threads;
+                for (const auto& w : work)
+                    threads.emplace_back(runThreadWorkload, std::cref(w.second), prefix + ".conc." + std::to_string(w.first),
+                                         seed * 7919u + static_cast<unsigned>(w.first), true);
+                for (auto& t : threads)
+                    t.join();
+            }
+            _exit(0);
+        }
+        int status = 0;
+        waitpid(pid, &status, 0);
+        if (!(WIFEXITED(status) && WEXITSTATUS(status) == 0))
+        {
+            // the process died (sanitizer report, signal, watchdog): every log of this phase without its end marker gets a crash event
+            const std::string why = WIFSIGNALED(status) ? std::string("signal ") + std::to_string(WTERMSIG(status))
+                                                        : std::string("exit ") + std::to_string(WEXITSTATUS(status));
+            for (const auto& w : work)
+            {
+                const std::string p = prefix + (phase == 0 ? ".alone." : ".conc.") + std::to_string(w.first);
+                FILE* f = fopen(p.c_str(), "a");
+                if (f)
+                {
+                    fprintf(f, "\n{\"e\":\"crash\",\"id\":\"thread-%d\",\"why\":\"%s\"}\n", w.first, why.c_str());
+                    fclose(f);
+                }
+            }
+        }
+    }
+    fprintf(stderr, "exec: %zu threads\n", work.size());
+    return 0;
+}
+
 int main(int argc, char** argv)
 {
+    if (argc == 4 && std::string(argv[1]) == "--threads")
+        return threadedMain(argv[2], argv[3]);
     if (argc < 3)
     {
         fprintf(stderr, "usage: exec <cases.ndjson> <trace.ndjson> [--nofork]\n");
